@@ -68,16 +68,16 @@ QUICK_ELF = ("x86/prefixes.elf", "x86/flow.elf", "x64/flow.elf64", "x64/test_ful
              "arm/sc", "arm/sc.o", "riscv/TA.elf.signed")
 
 
-def validate(ctx, fmt, module, cfg, compare, max_bytes=400000, shards=6, only=None, noref=()):
+def validate(ctx, fmt, module, cfg, compare, max_bytes=400000, shards=6, only=None, noref=(), strict_only=False):
     """returns the list of (ref, data, tlc record) for the files of the corpus (+ the sample files listed in noref, for
     which no reference dump exists: they get no T-ref verdict, only TLC's report of their bytes)"""
     items = []
     for rel in noref:
         path = os.path.join(SAMPLES, rel)
-        if os.path.exists(path):
+        if os.path.exists(path) and not (strict_only and rel not in only):
             items.append(({"file": rel, "origin": "samples", "noref": True}, open(path, "rb").read()))
     for ref, path in load_corpus(fmt):
-        if only is not None and ref["origin"] != "extra" and ref["file"] not in only:
+        if only is not None and (strict_only or ref["origin"] != "extra") and ref["file"] not in only:
             continue
         if not os.path.exists(path):
             ctx.count("corpus_files_missing", 1)
@@ -92,6 +92,8 @@ def validate(ctx, fmt, module, cfg, compare, max_bytes=400000, shards=6, only=No
             continue
         items.append((ref, data))
     if not items:
+        if only is not None and strict_only:
+            return []
         raise tlc.MachineryError("no usable reference file for format " + fmt)
     # biggest first, round-robin over the shards
     order = sorted(range(len(items)), key=lambda i: -len(items[i][1]))
@@ -131,11 +133,11 @@ def validate(ctx, fmt, module, cfg, compare, max_bytes=400000, shards=6, only=No
     return out
 
 
-def run_elf(ctx, quick=False):
+def run_elf(ctx, quick=False, only=None):
     c14.quiet()
     n = 0
-    for ref, data, r in validate(ctx, "elf", "ElfRef", "ElfRef.cfg", None, only=QUICK_ELF if quick else None,
-                                 shards=4 if quick else 6):
+    for ref, data, r in validate(ctx, "elf", "ElfRef", "ElfRef.cfg", None, only=only or (QUICK_ELF if quick else None),
+                                 shards=4 if quick else 6, strict_only=only is not None):
         out, drifts = [], []
         try:
             p = c14.open_elf(data)
@@ -161,13 +163,13 @@ def run_elf(ctx, quick=False):
     ctx.count("elf_samples_checked", n)
 
 
-def run_pe(ctx, quick=False):
+def run_pe(ctx, quick=False, only=None):
     """T-ref for the PE dumps + T: the PE samples through amoco (CoST.exe has no reference dump: llvm-readobj rejects it)"""
     from . import c14pe
     c14.quiet()
     n = 0
     for ref, data, r in validate(ctx, "pe", "PeRef", "PeRef.cfg", pe_ref_to_wire, shards=3, max_bytes=600000,
-                                 noref=("x86/CoST.exe",)):
+                                 noref=("x86/CoST.exe",), only=only, strict_only=only is not None):
         out, drifts = [], []
         try:
             p = c14pe.open_pe(data)
@@ -209,11 +211,11 @@ def macho_ref_to_wire(ref):
             "syms": [dict([(k, digits(v)) for k, v in y.items() if k != "name"] + [("name", codes(y["name"]))]) for y in ref["syms"]]}
 
 
-def run_macho(ctx, quick=False):
+def run_macho(ctx, quick=False, only=None):
     from . import c14macho
     c14.quiet()
     n = 0
-    for ref, data, r in validate(ctx, "macho", "MachORef", "MachORef.cfg", macho_ref_to_wire, shards=2):
+    for ref, data, r in validate(ctx, "macho", "MachORef", "MachORef.cfg", macho_ref_to_wire, shards=2, only=only, strict_only=only is not None):
         out, drifts = [], []
         try:
             p = c14macho.open_macho(data)
